@@ -314,8 +314,11 @@ def build_env(case, tmp):
             with open(path, "w", encoding="utf-8", newline="") as f:
                 f.write("\n".join(lines) + "\n")
             inner = path
+            _HANDLES.update(path=path, lines=None)
         else:
-            inner = IterableSource([l + case["eol"] for l in lines] if case.get("eol") else lines)
+            held = [l + case["eol"] for l in lines] if case.get("eol") else lines
+            inner = IterableSource(held)
+            _HANDLES.update(path=None, lines=held)
         if src == "csv":
             source = CsvSource(inner, has_header=bool(case.get("header")), **(case.get("dialect") or {}))
         elif src in ("arff", "sarff"):
@@ -349,6 +352,34 @@ def build_env(case, tmp):
             args.pop()
         return ctor(*args)
     return ctor(source, lc, lt, take)
+
+
+_HANDLES = {}
+
+
+def permutable(case):
+    """a dense text table with a header whose label column is named: its columns can be written in another order without
+    changing any example (features are named, the label is found by name)"""
+    return (case.get("src") in ("csv", "arff") and case.get("header") and isinstance(case.get("label_col"), str)
+            and len(case["header"]) >= 2 and not case.get("edge") and case["header"].count(case["label_col"]) == 1)
+
+
+def permute_columns(case):
+    """the same table with its last column written first"""
+    rot = lambda r: r[-1:] + r[:-1]
+    c = dict(case, header=rot(case["header"]), rows=[rot(r) for r in case["rows"]])
+    if case.get("types"):
+        c["types"] = rot(case["types"])
+    return c
+
+
+def rewrite_source(case, handles):
+    lines = csv_text(case) if case["src"] == "csv" else arff_text(case)
+    if handles.get("path"):
+        with open(handles["path"], "w", encoding="utf-8", newline="") as f:
+            f.write("\n".join(lines) + "\n")
+    elif handles.get("lines") is not None:
+        handles["lines"][:] = [l + case["eol"] for l in lines] if case.get("eol") else lines
 
 
 def hand_over(seq, how):
@@ -418,12 +449,14 @@ def observe_access(ctx, keys):
     return acc
 
 
-def observe(env, probes, keys=None):
+def observe(env, probes, keys=None, keep=None):
     """one read of the environment -> canonical observation"""
     try:
         ints = list(env.read())
     except Exception as e:
         return {"err": ename(e)}
+    if keep is not None:
+        keep[:] = ints
     out = []
     for it in ints:
         o = {"ctx": None, "ctx_err": None}
@@ -526,10 +559,121 @@ def run_impl(case, probes, reads=2):
                 del it
             except Exception:
                 pass
+        if case.get("hist") and reads == 2:
+            return run_history(case, env, probes, keys)
         return [observe(env, probes, keys) for _ in range(reads)]
     finally:
         if tmp:
             shutil.rmtree(tmp, ignore_errors=True)
+
+
+# ------------------------------------------------------------------ phase 6: operation histories over an environment and a sibling
+HISTORIES = [
+    ["R", "S", "R"],                    # read, read a sibling, read again
+    ["a1", "S", "R", "Sa", "R"],        # abandon, sibling, read, abandon the sibling, read again
+    ["R", "mA", "R"],                   # the consumer edits the action list it was handed, then reads again
+    ["f", "f", "R", "a1", "R"],         # the third read, and the fifth after an abandoned fourth
+    ["S", "R", "mA", "S", "R"],         # sibling first; the sibling is read again after the consumer's edit
+    ["R", "a1", "S", "f", "R"],         # read, abandon, sibling, unobserved read, read
+    ["R", "mA", "a2", "S", "mA", "R"],  # edits of handed-out lists of both environments around an abandoned read
+]
+# round i (C14-im2): the source's text is rewritten between two reads with the columns in another order ("P"); the label is named
+P_HISTORIES = [
+    ["R", "P", "R"],
+    ["R", "a1", "P", "f", "R"],
+    ["f", "R", "P", "S", "R"],
+    ["R", "P", "P", "a1", "R"],
+]
+JUNK_ACTION = "~edited-by-the-consumer~"
+
+
+def sibling_of(case):
+    """a second environment of the same kind over other examples (the same examples in reverse order without the first one):
+    same source kind, label column, label type, take, call form"""
+    rows = list(reversed(case["rows"]))
+    if len(rows) >= 2:
+        rows = rows[:-1]
+    return {k: v for k, v in dict(case, rows=rows).items() if k not in ("hist", "abandon")}
+
+
+def abandon_read(env, k):
+    try:
+        it = iter(env.read())
+        for _ in range(k):
+            next(it, None)
+        if hasattr(it, "close"):
+            it.close()
+        del it
+    except Exception:
+        pass
+
+
+def edit_handed_out(ints):
+    """what a careless consumer may do with the data of a finished read: it edits the action list it was handed"""
+    done = set()
+    for it in ints:
+        acts = it.get("actions") if isinstance(it, dict) else None
+        if isinstance(acts, list) and id(acts) not in done:
+            done.add(id(acts))
+            acts.append(JUNK_ACTION)
+            acts.reverse()
+
+
+def run_history(case, env, probes, keys):
+    """the two observed reads of `env` ("R") inside a history of other operations: f = unobserved full read, a<k> = read abandoned after k
+    interactions, S = observed full read of the sibling, Sa = abandoned read of the sibling, mA = the consumer edits the action lists handed
+    out by the last finished observed read. Whatever happened before, a read is the bandit form of that environment's examples."""
+    sib_case = sibling_of(case)
+    sib_tmp = tempfile.mkdtemp(prefix="c14-") if sib_case.get("file") else None
+    out, sib_obs = [], []
+    handles = dict(_HANDLES)
+    cur, at = case, []
+    try:
+        sib = None
+        last = []
+        for op in case["hist"]:
+            if op == "P":
+                if permutable(cur):
+                    cur = permute_columns(cur)
+                    rewrite_source(cur, handles)
+                    keys = access_keys(cur)
+                continue
+            if op.startswith("S") and sib is None:
+                try:
+                    sib = build_env(sib_case, sib_tmp)
+                except Exception as e:
+                    sib = e
+            if op == "R":
+                last = []
+                at.append(cur)
+                out.append(observe(env, probes, keys, keep=last))
+            elif op == "f":
+                try:
+                    list(env.read())
+                except Exception:
+                    pass
+            elif op.startswith("a"):
+                abandon_read(env, int(op[1:]))
+            elif op == "S":
+                if isinstance(sib, Exception):
+                    sib_obs.append({"err": "ctor:" + ename(sib)})
+                else:
+                    last = []
+                    sib_obs.append(observe(sib, [], access_keys(sib_case), keep=last))
+            elif op == "Sa":
+                if not isinstance(sib, Exception):
+                    abandon_read(sib, 1)
+            elif op == "mA":
+                edit_handed_out(last)
+        while len(out) < 2:
+            at.append(cur)
+            out.append(observe(env, probes, keys))
+        out[0]["sibling"] = sib_obs
+        out[0]["cases_at"] = at
+        return out
+    finally:
+        if sib_tmp:
+            shutil.rmtree(sib_tmp, ignore_errors=True)
 
 
 # ------------------------------------------------------------------ expectation (the statement, directly)
@@ -1540,11 +1684,67 @@ def gen_case(rng, tier, edge_p=0.07):
         h = zlib.crc32(json.dumps(case, sort_keys=True).encode()) % 4
         if h < 2:
             case["pos_min"] = "short" if h == 0 else "mixed"
+    add_history(case)
+    return case
+
+
+def add_history(case, force=None):
+    """phase 6: every 5th case carries an operation history (decided from a CRC of the case, no draw from the stream)"""
+    import zlib
+    if case.get("edge") or case.get("src") == "tables":
+        return case
+    h = zlib.crc32(("hist" + json.dumps(case, sort_keys=True)).encode())
+    if force is not None or h % 5 == 0:
+        case["hist"] = list(HISTORIES[(h // 5) % len(HISTORIES) if force is None else force])
+    if force is None and permutable(case) and h % 5 in (0, 1, 2):
+        case["hist"] = list(P_HISTORIES[(h // 5) % len(P_HISTORIES)])
     return case
 
 
 # ------------------------------------------------------------------ snippet
 def snippet_for(case):
+    if not case.get("hist"):
+        return snippet_plain(case)
+    # phase 6: the history written out; show(env, tag) is the plain snippet's read-and-print loop
+    base = snippet_plain({k: v for k, v in case.items() if k != "hist"}).rstrip("\n").split("\n")
+    i_env = max(i for i, l in enumerate(base) if l.startswith("env = "))
+    i_for = base.index("for k in range(2):")
+    sib = snippet_plain(sibling_of(case)).rstrip("\n").split("\n")
+    j_env = max(i for i, l in enumerate(sib) if l.startswith("env = "))
+    out = base[:i_env + 1]
+    out += ["def make_sibling():   # a second environment of the same kind over other examples"] + ["    " + l for l in sib[5:j_env + 1]] + ["    return env"]
+    out += base[i_env + 1:i_for]
+    out += ["def show(env, k):"] + base[i_for + 1:] + ["    return ints"]
+    out += ["sib = None; last = []", "# the history %s" % "/".join(case["hist"])]
+    nr = ns = 0
+    for op in case["hist"]:
+        if op.startswith("S"):
+            out.append("sib = sib or make_sibling()")
+        if op == "R":
+            nr += 1
+            out.append("last = show(env, 'of the environment, #%d')" % nr)
+        elif op == "f":
+            out.append("list(env.read())   # a full read nobody looks at")
+        elif op.startswith("a"):
+            out.append("it = iter(env.read()); [next(it, None) for _ in range(%d)]; it.close(); del it   # an abandoned read" % int(op[1:]))
+        elif op == "S":
+            ns += 1
+            out.append("last = show(sib, 'of the sibling, #%d')" % ns)
+        elif op == "Sa":
+            out.append("it = iter(sib.read()); next(it, None); it.close(); del it   # an abandoned read of the sibling")
+        elif op == "P":
+            out.append("# (the source's text is rewritten here with its last column first: `lines[:] = <permuted text>` or the file rewritten; label named %r)" % (case.get("label_col"),))
+            if permutable(case):
+                pc = permute_columns(case)
+                out.append("lines[:] = %r" % ((csv_text(pc) if pc["src"] == "csv" else arff_text(pc)),))
+                case = pc
+        elif op == "mA":
+            out += ["for acts in {id(i['actions']): i['actions'] for i in last}.values():   # the consumer edits the action list it was handed",
+                    "    if isinstance(acts, list): acts.append(%r); acts.reverse()" % JUNK_ACTION]
+    return "\n".join(out) + "\n"
+
+
+def snippet_plain(case):
     lines = ["import sys, os; sys.path.insert(0, os.environ.get('COBA_REPO', '/repo'))",
              "from coba.environments import Environments, SupervisedSimulation, CsvSource, ArffSource, LibSvmSource, ManikSource",
              "from coba.pipes import IterableSource, ListSource",
@@ -1869,6 +2069,9 @@ class C14(Property):
             "CSV with tab delimiter / edge white space / empty edge fields / kept line terminators; already labelled sources (rows carrying their own tipe) with an explicit label_type that agrees, differs or is absent; "
             "text sources with and without take are parsed by the model itself (C12 reader models: CSV, LibSVM, Manik, whole-file dense and sparse ARFF through arffRead), take is sampled by the model itself (C09 reservoir) between reader and LabelRows; "
             "(X,Y) handed over as lists, tuples or one-shot iterables (generator, map, iterator), optionally after a first read that was abandoned after 1..n interactions; "
+            "every 5th case (chosen by a CRC of the case) carries an operation history of 3-6 operations around the two observed reads of one environment: unobserved full reads, abandoned reads, "
+            "observed and abandoned reads of a sibling environment (same kind, other examples), the consumer editing the action list handed out by a finished read, and - for a text table whose label "
+            "column is named - the source text rewritten with its columns in another order between the reads (the later read is held against the rewritten table); "
             "7% of the cases lie outside the quantifier (duplicate label lists, mixed label kinds, repeated CSV header names ...) and are only compared with the model; "
             "non-trivial = at least 2 examples after selection and at least 2 distinct labels (classification / multi-label) or 2 distinct targets (regression)")
     trusted_base = [
@@ -2025,6 +2228,29 @@ class C14(Property):
             for lc_, lt_, tk in ((1, None, None), (1, "c", None), (2, "c", None), (2, "r", None), (2, None, 2), (1, "C", 3), (0, "R", None)):
                 cs_.append(dict(base, src="rows", sparse=False, label_col=lc_, label_type=lt_, take=tk, rows=tab, **({"pos_min": pm} if pm else {})))
         cs_.append({"src": "tables", "rows": [], "via": "sim", "kw": False})
+        # phase 6: every operation history (HISTORIES) over an (X,Y) classification / Categorical / multi-label / regression
+        # environment, an in-memory table with take, and a CSV text with a header; the sibling (sibling_of) has other labels
+        hx = [[t(1), cs("b")], [t(2), cs("a")], [t(3), cs("b")], [t(4), cs("c")], [t(5), cs("d")]]
+        hc = [[t(1), cat("y", ["z", "y", "x"])], [t(2), cat("x", ["z", "y", "x"])], [t(3), cat("x", ["z", "y", "x"])], [t(4), cat("z", ["z", "y", "x"])]]
+        hm = [[t(1), {"l": [cs("a"), cs("b")]}], [t(2), {"l": [cs("b")]}], [t(3), {"l": []}], [t(4), {"l": [cs("q")]}]]
+        htab = [[ci(1), cs("a"), ci(5)], [ci(2), cs("b"), ci(6)], [ci(3), cs("a"), ci(7)], [ci(4), cs("c"), ci(8)], [ci(5), cs("d"), ci(9)]]
+        for hi, h in enumerate(HISTORIES):
+            cs_.append(dict(base, src="xy", label_type="c", rows=hx, hist=list(h)))
+            cs_.append(dict(base, src="xy", label_type=None, rows=hc, hist=list(h), kw=bool(hi % 2)))
+            cs_.append(dict(base, src="xy", label_type="m", rows=hm, hist=list(h)))
+            cs_.append(dict(base, src="xy", label_type=None, rows=nums + [[t(4), ci(9)]], hist=list(h), via="env" if hi % 2 else "sim"))
+            cs_.append(dict(base, src="rows", sparse=False, label_col=1, label_type="c", take=3 if hi % 2 else None, rows=htab, hist=list(h)))
+            cs_.append(dict(base, src="csv", header=["a", "b", "c"], label_col="b", label_type=None, take=None, file=bool(hi % 2), hist=list(h),
+                            rows=[[cs("1"), cs("x"), cs("3")], [cs("4"), cs("y"), cs("6")], [cs("7"), cs("x"), cs("9")], [cs("8"), cs("w"), cs("2")]]))
+        # round i (C14-im2): a named label column, the text rewritten with permuted columns between reads of one environment
+        for hi, h in enumerate(P_HISTORIES):
+            for file_ in (False, True):
+                cs_.append(dict(base, src="csv", header=["x1", "x2", "y"], label_col="y", label_type="c" if hi % 2 else None, take=None, file=file_, hist=list(h),
+                                rows=[[cs("1"), cs("2"), cs("a")], [cs("3"), cs("4"), cs("b")], [cs("5"), cs("6"), cs("a")]]))
+            cs_.append(dict(base, src="csv", header=["y", "x1"], label_col="y", label_type=None, take=2, file=False, hist=list(h), kw=True,
+                            rows=[[cs("a"), cs("1")], [cs("b"), cs("3")], [cs("c"), cs("5")]]))
+            cs_.append(dict(base, src="arff", header=["f", "y", "g"], types=["num", ["u", "v", "w"], "str"], label_col="y", label_type=None, take=None, file=bool(hi % 2),
+                            hist=list(h), rows=[[ci(1), cs("u"), cs("p")], [ci(2), cs("v"), cs("q")], [ci(3), cs("u"), cs("r")]]))
         for c in cs_:
             c.setdefault("take", None)
         return cs_
@@ -2099,8 +2325,13 @@ class C14(Property):
         known = known_sigs()
         skips = [set(), set()]
         seen = set()
+        cases_at = (impl[0].pop("cases_at", None) if isinstance(impl[0], dict) else None) or [case, case]
+        rewritten = [c is not case and c != case for c in cases_at[:2]]
         for k in (0, 1):
-            for sig, what, sk in monitor(impl[k], exp, probes, case, k):
+            exp_k = expectation(cases_at[k]) if rewritten[k] else exp
+            for sig, what, sk in monitor(impl[k], exp_k, probes, cases_at[k], k):
+                if rewritten[k]:
+                    what = "after the source was rewritten with its columns in another order (history %s): %s" % ("/".join(case["hist"]), what)
                 if case.get("edge") and not sig.startswith("xy-second-read"):
                     continue
                 if case.get("edge_kind") == "duplicate-header":
@@ -2110,6 +2341,17 @@ class C14(Property):
                 if sig not in seen:
                     seen.add(sig)
                     fails.append(F("B", what, sig))
+        if case.get("hist"):
+            # phase 6: the sibling's observed reads are held against the statement for the sibling's own examples
+            sib_case = sibling_of(case)
+            sib_exp = expectation(sib_case)
+            for j, so in enumerate((impl[0].pop("sibling", None) if isinstance(impl[0], dict) else None) or []):
+                for sig, what, sk in monitor(so, sib_exp, [], sib_case, j):
+                    if sig in known:
+                        continue
+                    if "sibling-read:" + sig not in seen:
+                        seen.add("sibling-read:" + sig)
+                        fails.append(F("B", "history %s, read #%d of the sibling environment: %s" % ("/".join(case["hist"]), j + 1, what), "sibling-read:" + sig))
         if case.get("edge") and exp["lt"] == "m" and any(x.startswith("reward-m:offered") for x in known):
             # outside the quantifier the monitor does not run; while the scalar-action finding is open the
             # model (fixed behaviour) is not compared on the rewards of the offered (scalar) actions
@@ -2160,6 +2402,9 @@ class C14(Property):
                 tags.append("xy:one-shot-iterable")
         if case.get("abandon"):
             tags.append("history:abandoned-first-read")
+        if case.get("hist"):
+            tags.append("history:" + "/".join(case["hist"]))
+            tags.append("history:%d-operations" % len(case["hist"]))
         if case.get("edge"):
             tags.append("edge:" + case.get("edge_kind", "?"))
         if case.get("file"):
@@ -2227,6 +2472,8 @@ class C14(Property):
                 tags.append("out-of-model")
             else:
                 for k in (0, 1):
+                    if rewritten[k]:
+                        continue    # the model was given the table as first written
                     d = compare(impl[k], mobs, skips[k], k)
                     if d:
                         fails.append(F("A", d[1] + " (%s)" % describe(case), d[0]))
@@ -2312,6 +2559,11 @@ class C14(Property):
             yield {k: v for k, v in case.items() if k != "pos_min"}
         if case.get("abandon"):
             yield dict(case, abandon=0)
+        if case.get("hist"):
+            yield {k: v for k, v in case.items() if k != "hist"}
+            for k, op in enumerate(case["hist"]):
+                if op != "R":
+                    yield dict(case, hist=case["hist"][:k] + case["hist"][k + 1:])
         if case.get("xy_as") and case["xy_as"] != ["list", "list"]:
             yield dict(case, xy_as=["list", case["xy_as"][1]])
             yield dict(case, xy_as=[case["xy_as"][0], "list"])
